@@ -160,6 +160,11 @@ scratch_pad * scratch_pad_new(mmd_engine * e, short format) {
 
 		p->recurse_depth = 0;
 
+		p->in_table_header = 0;
+		p->table_column_count = 0;
+		p->table_cell_count = 0;
+		memset(p->table_alignment, '\0', sizeof(p->table_alignment));
+
 		p->base_header_level = 1;
 
 		p->odf_para_type = BLOCK_PARA;
@@ -2533,7 +2538,8 @@ void abbreviation_from_bracket(const char * source, scratch_pad * scratch, token
 void read_table_column_alignments(const char * source, token * table, scratch_pad * scratch) {
 	token * walker = table->child->child;
 
-	scratch->table_alignment[0] = '\0';
+	// Cells beyond the columns of the separator line have no alignment
+	memset(scratch->table_alignment, '\0', sizeof(scratch->table_alignment));
 	scratch->table_column_count = 0;
 
 	if (walker == NULL) {
